@@ -115,10 +115,15 @@ class RecordCall(object):
         args = list(args)
         if isinstance(star, TupleV):
             args += list(star.items)
+        ret = self.ret_fn(engine, st) if self.ret_fn else self.ret
+        try:
+            rv = engine.to_val(st, ret)
+        except Exception:
+            rv = None
         st.trace.append(Event("repo-call", meth=func.qualname, args=[engine.to_val(st, a) for a in args],
                               kwargs={k: engine.to_val(st, v) for k, v in kwargs.items()}, site=engine.site(fr, node),
-                              held=list(st.held)))
-        yield st, (self.ret_fn(engine, st) if self.ret_fn else self.ret)
+                              held=list(st.held), ret=rv))
+        yield st, ret
 
 
 def simulate_callback(engine, st, fr, cb, arg, prepare=None):
